@@ -41,6 +41,11 @@ def lookup_ranks(f):
             x = strip_refs(d[1])
             if x[0] == 'call' and short(x[1]) in ('get', 'get_mut', 'find', 'position'):
                 sw.append(s)
+            elif x[0] == 'call' and short(x[1]) == 'branch' and x[2]:
+                # the same lookup consumed by `.ok_or(Error)?`: Continue is the hit, Break the miss
+                y = strip_refs(x[2][0])
+                if y[0] == 'call' and short(y[1]) in ('ok_or', 'ok_or_else') and y[2] and strip_refs(y[2][0])[0] == 'call' and short(strip_refs(y[2][0])[1]) in ('get', 'get_mut', 'find', 'position'):
+                    sw.append(s)
     ranks = {}
     for s in sw:
         ranks[s] = sum(1 for o in sw if o != s and f.dominates(o, s))
@@ -71,6 +76,8 @@ def token(f):
                     return ('L:table#%d' % ranks[c['switch']], vs[0])
                 return None     # loop structure / other options
             if vs in (['Continue'], ['Break']) and q.find_sub(a, lambda x: q.is_call(x, 'ok_or')) is not None:
+                if c['switch'] in ranks:
+                    return ('L:table#%d' % ranks[c['switch']], 'Some' if vs == ['Continue'] else 'None')
                 return ('A:lookup', 'hit' if vs == ['Continue'] else 'miss')
             return None
         if c['kind'] in ('Ge', 'Gt') and c.get('b') is not None and is_const(c['b'], 0):
@@ -98,6 +105,8 @@ def token(f):
         if c['kind'] == 'bool' and q.find_sub(a, lambda x: q.is_call(x, 'all')) is not None:
             return ('S:all-seen', c['truth'])
         return None
+    want.ranks = ranks
+    want.action_sw = action_sw
     return want
 
 
@@ -131,9 +140,16 @@ def outcomes(f):
         var = e[1].split('::')[-1]
         cxs = f.contexts(bi, want)
         # an error passed to ok_or materialises on the miss edge of the `?`
-        used_in_ok_or = any(kind == 'arg' and short(x['callee'].get('path') or '') == 'ok_or' for bj, kind, x in q.local_uses(f, st['pl']['l'])) if not st['pl']['p'] else False
+        ok_or_uses = [x for bj, kind, x in q.local_uses(f, st['pl']['l']) if kind == 'arg' and short(x['callee'].get('path') or '') == 'ok_or'] if not st['pl']['p'] else []
+        used_in_ok_or = bool(ok_or_uses)
         if used_in_ok_or:
-            cxs = [dict(c, **{'A:lookup': 'miss'}) for c in cxs]
+            # which lookup the ok_or belongs to: the switch on branch(ok_or(..)) is a table lookup or the action lookup
+            miss = ('A:lookup', 'miss')
+            for s_, r_ in want.ranks.items():
+                d_ = strip_refs(f.expr(f.blocks[s_]['term']['d'], s_))
+                if q.find_sub(d_, lambda y: y[0] == 'call' and short(y[1]) == 'ok_or' and any(y[3] == (f.name, bj) for bj, kind, x in q.local_uses(f, st['pl']['l']) if kind == 'arg')) is not None:
+                    miss = ('L:table#%d' % r_, 'None')
+            cxs = [dict(c, **{miss[0]: miss[1]}) for c in cxs]
         out.setdefault('Err:' + var, set()).update(frozenset(c.items()) for c in cxs)
     # dense writes: stores into an indexed f64 slice that is the returned box
     for bi, st, pl, rhs in q.stores(f):
@@ -255,7 +271,7 @@ def run(ctx):
         lay = False
         for bi, t, e in sb:
             cf, _ = q.closure_of(lib, e[2][1])
-            lay = q.maps_num_actions(lib, cf) and q.find_sub(e[2][1], lambda x: x[0] == 'param' and x[1] == 2) is not None
+            lay = (q.maps_num_actions(lib, cf) or q.maps_num_actions(lib, q.find_sub(e[2][1], lambda x: x[0] == 'fn'))) and q.find_sub(e[2][1], lambda x: x[0] == 'param' and x[1] == 2) is not None
         ctx.verdict(lay, 'C14.layout', 'C14.layout:%s:partition' % nm, 'the dense vector is partitioned by num_actions of the same infoset table the indices were allocated from', f.where(sb[0][0]) if sb else f.where(0), 'found: %s' % lay)
     # index allocation walks infos in order with a running counter
     rule = 'C14.layout'
